@@ -16,12 +16,12 @@ def parseOp (wallet : Bool) (s : String) : Option Op :=
   | 'R' :: w :: i :: sh :: rest => do
     let w ← digit? w; let i ← digit? i; let sh ← digit? sh
     let f ← parseFault (String.ofList rest)
-    if w < 1 || w > 3 || i < 1 || sh > 4 || (f == .idFail && !wallet) then none
+    if w < 1 || w > 4 || i < 1 || sh > 4 || (f == .idFail && !wallet) then none
     else some (.reg w i sh f)
   | 'X' :: w :: rest => do
     let w ← digit? w
     let f ← parseFault (String.ofList rest)
-    if w < 1 || w > 3 || f == .idFail then none else some (.arch w f)
+    if w < 1 || w > 4 || f == .idFail then none else some (.arch w f)
   | _ => none
 
 def showRes : Res → String
@@ -35,7 +35,7 @@ def insertSorted (e : Nat × Nat) : List (Nat × Nat) → List (Nat × Nat)
 def sortPairs (l : List (Nat × Nat)) : List (Nat × Nat) := l.foldr insertSorted []
 
 def showSnapshot (c : Cache) : String :=
-  let parts := [1, 2, 3].filterMap fun w =>
+  let parts := [1, 2, 3, 4].filterMap fun w =>
     let l := sortPairs (signersOf c w)
     if l.isEmpty then none
     else some (s!"{w}=" ++ "+".intercalate (l.map fun e => s!"{e.1}.{e.2}"))
@@ -95,6 +95,6 @@ def monitor (op obs : String) : String :=
       | none => "FAIL unparsable-observation"
       | some trace =>
         if trace.length ≠ ops.length then "FAIL observation-length"
-        else if holdsTrace wallet [] ops trace then "ok" else "FAIL registry-rule"
+        else if holdsTrace wallet [] [] ops trace then "ok" else "FAIL registry-rule"
 
 def main (args : List String) : IO UInt32 := driverMain model monitor args
